@@ -194,9 +194,28 @@ func (c *Case) Exec(ctx context.Context, e queryEngine, st storage.Queryable) Re
 // ---------------------------------------------------------------------------------------------
 // comparison
 
-const relTol = 1e-9
+// Tolerances of the value comparison. "Up to floating-point rounding" has to allow for
+// cancellation: an average or a standard deviation computed in another order (sum/count vs
+// incremental mean, one partition vs several) differs by rounding errors that are relative to the
+// magnitude of the *operands*, not of the result. The harness does not see the operands, so:
+// the relative tolerance is 1e-9 (1e-6 for queries with a variance-type reduction, which squares
+// the operands), plus an absolute tolerance relative to the largest value in the two results.
+var (
+	relTol   = 1e-9
+	absScale = 1e-12
+)
 
-func floatEq(a, b float64) bool {
+// setTolerances picks the tolerances for one case (workers handle one case at a time).
+func setTolerances(query string) {
+	relTol, absScale = 1e-9, 1e-12
+	for _, w := range []string{"stddev", "stdvar", "deriv", "predict_linear"} {
+		if strings.Contains(query, w) {
+			relTol, absScale = 1e-6, 1e-9
+		}
+	}
+}
+
+func floatEqS(a, b, scale float64) bool {
 	if math.IsNaN(a) || math.IsNaN(b) {
 		return math.IsNaN(a) && math.IsNaN(b)
 	}
@@ -208,7 +227,23 @@ func floatEq(a, b float64) bool {
 	}
 	d := math.Abs(a - b)
 	m := math.Max(math.Abs(a), math.Abs(b))
-	return d <= relTol*m || d < 1e-300
+	return d <= relTol*m || d < 1e-300 || d <= absScale*scale
+}
+
+func floatEq(a, b float64) bool { return floatEqS(a, b, 0) }
+
+// maxAbs is the largest finite magnitude in a result.
+func maxAbs(r Result) float64 {
+	m := 0.0
+	for _, s := range r.Series {
+		for _, p := range s.Pts {
+			v := math.Abs(float64(p.V))
+			if !math.IsNaN(v) && !math.IsInf(v, 0) && v > m {
+				m = v
+			}
+		}
+	}
+	return m
 }
 
 // Diff returns "" when the two results agree (type, series, timestamps, values up to
@@ -226,6 +261,7 @@ func Diff(a, b Result) string {
 	if len(a.Series) != len(b.Series) {
 		return fmt.Sprintf("series count %d vs %d: %v vs %v", len(a.Series), len(b.Series), serNames(a), serNames(b))
 	}
+	scale := math.Max(maxAbs(a), maxAbs(b))
 	for i := range a.Series {
 		x, y := a.Series[i], b.Series[i]
 		if x.Labels != y.Labels {
@@ -238,7 +274,7 @@ func Diff(a, b Result) string {
 			if x.Pts[j].T != y.Pts[j].T {
 				return fmt.Sprintf("{%s}[%d]: t %d vs %d", x.Labels, j, x.Pts[j].T, y.Pts[j].T)
 			}
-			if !floatEq(float64(x.Pts[j].V), float64(y.Pts[j].V)) {
+			if !floatEqS(float64(x.Pts[j].V), float64(y.Pts[j].V), scale) {
 				return fmt.Sprintf("{%s}@%d: %v vs %v", x.Labels, x.Pts[j].T, float64(x.Pts[j].V), float64(y.Pts[j].V))
 			}
 		}
